@@ -25,7 +25,7 @@ RULE = ("case = (literal text, position); expected = result for the marker liter
         "in every string leaf; non-trivial = literal is not a plain lower-case word; distinct by (literal, position)")
 ASSUMPTIONS = ["the marker literal 'lit' is parsed correctly in every position (checked: its result must contain the marker)"]
 
-ATOMS = ["a", "Z", "5", " ", ",", "(", ")", "=", ";", ":", ".", "-", "+", "*", "/", "%", "$", "!", "?", "&", "|", "^", "~", "@", "#", "<", ">",
+ATOMS = ["a", "Z", "N", "E", "5", " ", ",", "(", ")", "=", ";", ":", ".", "-", "+", "*", "/", "%", "$", "!", "?", "&", "|", "^", "~", "@", "#", "<", ">",
          "[", "]", "{", "}", "_", '"', "`", "\\", ", ", " ,", "( ", "--", "/*", "*/", "''", "SELECT", "NULL", "CREATE", "é", "Ж", "中"]
 SUB3 = ["a", " ", ",", "(", ")", "=", ";", "-", "/", "*", "#", "'' ", "\\", "é", "Z", ".", "_", ":", "<", "5"]
 MARK = "'lit'"
@@ -57,6 +57,8 @@ PHRASES = [f(w) for w in WORDS for f in (lambda w: w, lambda w: w.capitalize(), 
 NUMS = [str(10 ** k) for k in range(0, 20)] + ["0", "7", "007", "0012", "1234", "99999", str(2 ** 31), str(2 ** 31 - 1), str(2 ** 63), str(2 ** 63 - 1),
                                               "12345678901234567890", "9" * 20, "1" * 19]
 NUMCTX = [("int", ""), ("bigint", " NOT NULL"), ("numeric(20)", ", c2 int"), ("int", " PRIMARY KEY")]
+# numeric defaults given by an ALTER statement that re-declares the column (the earlier default 10 must be replaced, also by 0)
+NUMALTER = ["ALTER TABLE t MODIFY COLUMN c1 int DEFAULT {v};", "ALTER TABLE t ALTER COLUMN c1 int DEFAULT {v};", "ALTER TABLE t MODIFY c1 int DEFAULT {v};"]
 
 
 def bounds(tier):
@@ -91,6 +93,8 @@ def gen_cases(tier):
     for v in NUMS:
         for ci in range(len(NUMCTX)):
             cases.append({"kind": "num", "val": v, "ctx": ci})
+        for ai in range(len(NUMALTER)):
+            cases.append({"kind": "num", "val": v, "alter": ai})
     return cases
 
 
@@ -207,8 +211,7 @@ def leaf_symptoms(e, o):
 
 def evaluate(case):
     if case["kind"] == "num":
-        ty, tail = NUMCTX[case["ctx"]]
-        ddl = "CREATE TABLE t (c0 int, c1 %s DEFAULT %s%s);" % (ty, case["val"], tail)
+        ddl = num_ddl(case)
         r = run_ddl(ddl)
         diffs = []
         try:
@@ -271,10 +274,16 @@ def _set(v, path, val):
         v[last] = val
 
 
+def num_ddl(case):
+    if "alter" in case:
+        return "CREATE TABLE t (c0 int, c1 int DEFAULT 10);\n" + NUMALTER[case["alter"]].format(v=case["val"])
+    ty, tail = NUMCTX[case["ctx"]]
+    return "CREATE TABLE t (c0 int, c1 %s DEFAULT %s%s);" % (ty, case["val"], tail)
+
+
 def describe(case):
     if case["kind"] == "num":
-        ty, tail = NUMCTX[case["ctx"]]
-        return {"ddl": "CREATE TABLE t (c0 int, c1 %s DEFAULT %s%s);" % (ty, case["val"], tail)}
+        return {"ddl": num_ddl(case)}
     tpl, run = POSITIONS[case["pos"]]
     return {"ddl": tpl.format(L="'" + case["lit"] + "'"), "run": run}
 
